@@ -106,3 +106,775 @@ Proof.
     - rewrite !Nat.mod_small in Hm by lia. lia. }
   subst i2. congruence.
 Qed.
+
+(* ------------------------------------------------------------------ edges and darts *)
+Definition good (L : lattice) : Prop := wf_lattice L = true /\ no_self_loops L = true.
+Definition valid_dart (L : lattice) (d : dart) : Prop := (fst d < nE L)%nat.
+
+Lemma edge_at_In L e : (e < nE L)%nat -> In (edge_at L e) (edges L).
+Proof. intros H. unfold edge_at. apply nth_In. exact H. Qed.
+
+Lemma good_edge L e j k :
+  good L -> (e < nE L)%nat -> edge_at L e = (j, k) ->
+  (j < nV L)%nat /\ (k < nV L)%nat /\ j <> k.
+Proof.
+  intros [Hwf Hnl] He Hjk.
+  pose proof (edge_at_In L e He) as Hin. rewrite Hjk in Hin.
+  unfold wf_lattice in Hwf. apply andb_prop in Hwf as [_ Hall].
+  rewrite forallb_forall in Hall. specialize (Hall _ Hin).
+  unfold no_self_loops in Hnl. rewrite forallb_forall in Hnl. specialize (Hnl _ Hin).
+  unfold wf_edge in Hall. cbn [fst snd] in *.
+  apply andb_prop in Hall as [H1 H2].
+  apply Nat.ltb_lt in H1. apply Nat.ltb_lt in H2.
+  apply negb_true_iff, Nat.eqb_neq in Hnl. auto.
+Qed.
+
+Lemma dhead_lt L d : good L -> valid_dart L d -> (dhead L d < nV L)%nat.
+Proof.
+  intros HG Hd. unfold dhead. destruct (edge_at L (fst d)) as [j k] eqn:E.
+  destruct (good_edge L _ _ _ HG Hd E) as (Hj & Hk & _). destruct (snd d); assumption.
+Qed.
+
+Lemma dtail_lt L d : good L -> valid_dart L d -> (dtail L d < nV L)%nat.
+Proof.
+  intros HG Hd. unfold dtail. destruct (edge_at L (fst d)) as [j k] eqn:E.
+  destruct (good_edge L _ _ _ HG Hd E) as (Hj & Hk & _). destruct (snd d); assumption.
+Qed.
+
+Lemma other_end_head L d :
+  good L -> valid_dart L d -> other_end L (fst d) (dtail L d) = dhead L d.
+Proof.
+  intros HG Hd. unfold other_end, dtail, dhead.
+  destruct (edge_at L (fst d)) as [j k] eqn:E.
+  destruct (good_edge L _ _ _ HG Hd E) as (_ & _ & Hne).
+  destruct (snd d).
+  - destruct (Nat.eqb_spec k j); [congruence|reflexivity].
+  - rewrite Nat.eqb_refl. reflexivity.
+Qed.
+
+Lemma incident_head L d : valid_dart L d -> incident_b L (dhead L d) (fst d) = true.
+Proof.
+  intros _. unfold incident_b, dhead. destruct (edge_at L (fst d)) as [j k].
+  destruct (snd d); rewrite Nat.eqb_refl; [apply orb_true_r|reflexivity].
+Qed.
+
+Lemma incident_tail L d : valid_dart L d -> incident_b L (dtail L d) (fst d) = true.
+Proof.
+  intros _. unfold incident_b, dtail. destruct (edge_at L (fst d)) as [j k].
+  destruct (snd d); rewrite Nat.eqb_refl; [reflexivity|apply orb_true_r].
+Qed.
+
+(* the dart of edge f that leaves vertex v *)
+Definition out_dart (L : lattice) (v f : nat) : dart := (f, (fst (edge_at L f) =? v)%nat).
+
+Lemma out_dart_tail L v f : incident_b L v f = true -> dtail L (out_dart L v f) = v.
+Proof.
+  unfold incident_b, out_dart, dtail. cbn [fst snd].
+  destruct (edge_at L f) as [j k]. cbn [fst].
+  destruct (Nat.eqb_spec j v) as [->|Hne]; [reflexivity|].
+  cbn [orb]. intros H. apply Nat.eqb_eq in H. exact H.
+Qed.
+
+(* a dart is determined by its edge and its head (no self-loops) *)
+Lemma dart_by_head L e b1 b2 :
+  good L -> (e < nE L)%nat -> dhead L (e, b1) = dhead L (e, b2) -> b1 = b2.
+Proof.
+  intros HG He. unfold dhead. cbn [fst snd].
+  destruct (edge_at L e) as [j k] eqn:E.
+  destruct (good_edge L _ _ _ HG He E) as (_ & _ & Hne).
+  destruct b1, b2; auto; intros; congruence.
+Qed.
+
+(* ------------------------------------------------------------------ next_dart *)
+Definition nd (L : lattice) (d : dart) : option dart := next_dart L (adj_table L) d.
+
+Lemma step_walk_spec L d :
+  good L -> valid_dart L d ->
+  exists f, succ_in (sorted_adj L (dhead L d)) (fst d) = Some f /\
+            step_walk L (adj_table L) (fst d) (dtail L d) = Some (dhead L d, f, snd (out_dart L (dhead L d) f)).
+Proof.
+  intros HG Hd. unfold step_walk.
+  rewrite (other_end_head L d HG Hd).
+  rewrite (adj_table_nth L _ (dhead_lt L d HG Hd)).
+  assert (Hin : In (fst d) (sorted_adj L (dhead L d))).
+  { apply in_sorted_adj. split; [exact Hd|apply incident_head, Hd]. }
+  destruct (succ_in_defined _ _ Hin) as [f Hf]. exists f. rewrite Hf. split; reflexivity.
+Qed.
+
+Lemma nd_spec L d :
+  good L -> valid_dart L d ->
+  exists f, succ_in (sorted_adj L (dhead L d)) (fst d) = Some f /\
+            nd L d = Some (out_dart L (dhead L d) f).
+Proof.
+  intros HG Hd. destruct (step_walk_spec L d HG Hd) as (f & Hs & Hw).
+  exists f. split; [exact Hs|]. unfold nd, next_dart. rewrite Hw. reflexivity.
+Qed.
+
+Lemma nd_valid L d d' : good L -> valid_dart L d -> nd L d = Some d' ->
+  valid_dart L d' /\ dtail L d' = dhead L d.
+Proof.
+  intros HG Hd H. destruct (nd_spec L d HG Hd) as (f & Hs & Hn).
+  rewrite Hn in H. injection H as <-.
+  apply succ_in_In in Hs as [_ Hf]. apply in_sorted_adj in Hf as [Hlt Hinc].
+  split; [exact Hlt|]. apply out_dart_tail, Hinc.
+Qed.
+
+Lemma nd_total L d : good L -> valid_dart L d -> exists d', nd L d = Some d'.
+Proof. intros HG Hd. destruct (nd_spec L d HG Hd) as (f & _ & H). eauto. Qed.
+
+Theorem nd_injective L d1 d2 d' :
+  good L -> valid_dart L d1 -> valid_dart L d2 ->
+  nd L d1 = Some d' -> nd L d2 = Some d' -> d1 = d2.
+Proof.
+  intros HG H1 H2 E1 E2.
+  destruct (nd_valid L d1 d' HG H1 E1) as [_ T1].
+  destruct (nd_valid L d2 d' HG H2 E2) as [_ T2].
+  destruct (nd_spec L d1 HG H1) as (f1 & S1 & N1).
+  destruct (nd_spec L d2 HG H2) as (f2 & S2 & N2).
+  rewrite E1 in N1. rewrite E2 in N2.
+  assert (Hh : dhead L d1 = dhead L d2) by congruence.
+  assert (Hf : f1 = f2).
+  { injection N1 as N1. injection N2 as N2. unfold out_dart in *. congruence. }
+  subst f2. rewrite <- Hh in S2.
+  pose proof (succ_in_inj _ _ _ _ (sorted_adj_NoDup L _) S1 S2) as He.
+  destruct d1 as [e1 b1], d2 as [e2 b2]. cbn [fst] in He. subst e2.
+  f_equal. eapply dart_by_head; eauto.
+Qed.
+
+(* ------------------------------------------------------------------ all darts, pigeonhole *)
+Lemma in_all_darts L d : In d (all_darts L) <-> valid_dart L d.
+Proof.
+  unfold all_darts, valid_dart. rewrite in_flat_map. split.
+  - intros (e & He & Hd). apply in_seq in He. cbn in Hd.
+    destruct Hd as [<-|[<-|[]]]; cbn; lia.
+  - intros Hd. exists (fst d). split; [apply in_seq; lia|].
+    destruct d as [e []]; cbn; auto.
+Qed.
+
+Lemma all_darts_length L : length (all_darts L) = (2 * nE L)%nat.
+Proof.
+  unfold all_darts. generalize (seq 0 (nE L)) (seq_length (nE L) 0).
+  intros l <-. induction l as [|x l IH]; cbn; [reflexivity|]. rewrite IH. lia.
+Qed.
+
+Lemma darts_bound L (l : list dart) :
+  NoDup l -> (forall d, In d l -> valid_dart L d) -> (length l <= 2 * nE L)%nat.
+Proof.
+  intros Hnd Hv. rewrite <- all_darts_length. apply NoDup_incl_length; [exact Hnd|].
+  intros d Hd. apply in_all_darts, Hv, Hd.
+Qed.
+
+(* ------------------------------------------------------------------ steps and chains *)
+Notation step := (nat * nat * bool)%type (only parsing).
+Definition sdart (s : step) : dart := (fst (fst s), snd s).
+Definition step_ok (L : lattice) (s : step) : Prop :=
+  valid_dart L (sdart s) /\ snd (fst s) = dtail L (sdart s).
+
+Lemma walk_darts_sdart w : walk_darts w = map sdart w.
+Proof. reflexivity. Qed.
+
+(* reversed chain: acc = a_k :: ... :: a_0 with nd a_{i} = a_{i+1} *)
+Fixpoint rchain (L : lattice) (acc : list step) : Prop :=
+  match acc with
+  | a :: ((b :: _) as r) => nd L (sdart b) = Some (sdart a) /\ rchain L r
+  | _ => True
+  end.
+
+Lemma rchain_pred L acc x :
+  rchain L acc -> In x (removelast acc) ->
+  exists y, In y (tl acc) /\ nd L (sdart y) = Some (sdart x).
+Proof.
+  induction acc as [|a acc IH]; [intros _ []|].
+  destruct acc as [|b r]; [intros _ []|].
+  intros [Hab Hr] Hin.
+  change (removelast (a :: b :: r)) with (a :: removelast (b :: r)) in Hin.
+  destruct Hin as [<-|Hin].
+  - exists b. split; [left; reflexivity|exact Hab].
+  - destruct (IH Hr Hin) as (y & Hy & Hn). exists y. split; [right; exact Hy|exact Hn].
+Qed.
+
+Lemma step_eqb_sdart a b : step_eqb a b = true <-> sdart a = sdart b.
+Proof.
+  unfold step_eqb, sdart. destruct a as [[e v] d], b as [[e' v'] d']. cbn [fst snd].
+  rewrite andb_true_iff, Nat.eqb_eq, eqb_true_iff. split; [intros []; congruence|intros [=]; auto].
+Qed.
+
+(* what a closed trace looks like, stated on the reversed accumulator *)
+Record racc_ok (L : lattice) (se : nat) (sd : bool) (acc : list step) : Prop := {
+  ro_ne : acc <> [];
+  ro_last : last acc (0%nat, 0%nat, true) = (se, dtail L (se, sd), sd);
+  ro_ok : forall s, In s acc -> step_ok L s;
+  ro_chain : rchain L acc;
+  ro_nodup : NoDup (map sdart acc)
+}.
+
+Lemma app_removelast_last' (acc : list step) d : acc <> [] -> acc = removelast acc ++ [last acc d].
+Proof. apply app_removelast_last. Qed.
+
+Lemma trace_loop_closes L se sd :
+  good L ->
+  forall fuel acc ce cv cd,
+    racc_ok L se sd acc -> hd (0%nat, 0%nat, true) acc = (ce, cv, cd) ->
+    (2 * nE L + 2 <= fuel + length acc)%nat ->
+    exists acc', trace_loop fuel L (adj_table L) se sd ce cv acc = Closed (rev acc') /\
+                 racc_ok L se sd acc' /\
+                 nd L (sdart (hd (0%nat, 0%nat, true) acc')) = Some (se, sd).
+Proof.
+  intros HG. induction fuel as [|fuel IH]; intros acc ce cv cd HR Hhd Hfuel.
+  - exfalso.
+    assert (length (map sdart acc) <= 2 * nE L)%nat.
+    { apply darts_bound; [apply (ro_nodup _ _ _ _ HR)|].
+      intros d Hd. apply in_map_iff in Hd as (s & <- & Hs). apply (ro_ok _ _ _ _ HR), Hs. }
+    rewrite map_length in *. lia.
+  - destruct acc as [|a0 r]; [exfalso; apply (ro_ne _ _ _ _ HR); reflexivity|].
+    cbn [hd] in Hhd. subst a0.
+    assert (Hok : step_ok L (ce, cv, cd)) by (apply (ro_ok _ _ _ _ HR); left; reflexivity).
+    unfold step_ok, sdart in Hok. cbn [fst snd] in Hok. destruct Hok as [Hval Hcv].
+    destruct (step_walk_spec L (ce, cd) HG Hval) as (f & Hsucc & Hstep).
+    cbn [fst] in Hstep. rewrite <- Hcv in Hstep.
+    cbn [trace_loop]. rewrite Hstep.
+    set (v' := dhead L (ce, cd)) in *.
+    set (d' := snd (out_dart L v' f)).
+    assert (Hnd : nd L (ce, cd) = Some (f, d')).
+    { unfold nd, next_dart. cbn [fst]. rewrite <- Hcv, Hstep. reflexivity. }
+    destruct (nd_valid L _ _ HG Hval Hnd) as [Hval' Htail'].
+    destruct ((f =? se)%nat && eqb d' sd) eqn:Hclose.
+    + apply andb_prop in Hclose as [Hf Hd]. apply Nat.eqb_eq in Hf. apply eqb_prop in Hd.
+      exists ((ce, cv, cd) :: r). split; [reflexivity|]. split; [exact HR|].
+      unfold sdart. cbn [hd fst snd]. rewrite Hnd. congruence.
+    + (* the new dart is fresh *)
+      assert (Hfresh : ~ In (f, d') (map sdart ((ce, cv, cd) :: r))).
+      { intros Hin. apply in_map_iff in Hin as (x & Hx & Hin).
+        rewrite (app_removelast_last' ((ce, cv, cd) :: r) (0%nat, 0%nat, true)) in Hin by discriminate.
+        apply in_app_or in Hin as [Hin|[<-|[]]].
+        - destruct (rchain_pred L _ x (ro_chain _ _ _ _ HR) Hin) as (y & Hy & Hny).
+          cbn [tl] in Hy. rewrite Hx in Hny.
+          assert (Hyok : step_ok L y) by (apply (ro_ok _ _ _ _ HR); right; exact Hy).
+          pose proof (nd_injective L (sdart y) (ce, cd) (f, d') HG (proj1 Hyok) Hval Hny Hnd) as Heq.
+          pose proof (ro_nodup _ _ _ _ HR) as Hnodup. cbn [map] in Hnodup.
+          apply NoDup_cons_iff in Hnodup as [Hnotin _]. apply Hnotin.
+          unfold sdart; cbn [fst snd]. rewrite <- Heq. apply in_map, Hy.
+        - rewrite (ro_last _ _ _ _ HR) in Hx.
+          unfold sdart in Hx; cbn [fst snd] in Hx.
+          injection Hx as Hx1 Hx2. rewrite <- Hx1, <- Hx2, Nat.eqb_refl, eqb_reflx in Hclose. discriminate. }
+      destruct (existsb (step_eqb (f, v', d')) (removelast ((ce, cv, cd) :: r))) eqn:Hex.
+      { exfalso. apply existsb_exists in Hex as (x & Hin & Hx). apply step_eqb_sdart in Hx.
+        change (sdart (f, v', d')) with (f, d') in Hx.
+        apply Hfresh. rewrite Hx. apply in_map.
+        clear -Hin. revert Hin. generalize ((ce, cv, cd) :: r). intros l.
+        induction l as [|a [|b l'] IHl]; cbn [removelast]; intros H; try contradiction.
+        destruct H as [<-|H]; [left; reflexivity|right; apply IHl, H]. }
+      apply (IH ((f, v', d') :: (ce, cv, cd) :: r) f v' d'); [|reflexivity|cbn [length] in *; lia].
+      constructor.
+      * discriminate.
+      * pose proof (ro_last _ _ _ _ HR) as Hl. cbn [last] in *. exact Hl.
+      * intros s [<-|Hs]; [|apply (ro_ok _ _ _ _ HR), Hs].
+        split; unfold sdart; cbn [fst snd]; [exact Hval'|]. fold d'. rewrite Htail'. reflexivity.
+      * cbn [rchain]. split; [unfold sdart; cbn [fst snd]; exact Hnd|apply (ro_chain _ _ _ _ HR)].
+      * cbn [map]. constructor; [exact Hfresh|apply (ro_nodup _ _ _ _ HR)].
+Qed.
+
+(* ------------------------------------------------------------------ forward walks: closed orbits of nd *)
+Notation dflt := (0%nat, 0%nat, true).
+
+Fixpoint chain (L : lattice) (w : list step) : Prop :=
+  match w with
+  | a :: ((b :: _) as r) => nd L (sdart a) = Some (sdart b) /\ chain L r
+  | _ => True
+  end.
+
+Record orbit_walk (L : lattice) (w : list step) : Prop := {
+  ow_ne : w <> [];
+  ow_ok : forall s, In s w -> step_ok L s;
+  ow_chain : chain L w;
+  ow_close : nd L (sdart (last w dflt)) = Some (sdart (hd dflt w));
+  ow_nodup : NoDup (map sdart w)
+}.
+
+Lemma chain_snoc L l a :
+  chain L l -> (l <> [] -> nd L (sdart (last l dflt)) = Some (sdart a)) -> chain L (l ++ [a]).
+Proof.
+  induction l as [|x l IH]; [intros; exact I|].
+  destruct l as [|y l].
+  - intros _ H. cbn. split; [apply H; discriminate|exact I].
+  - intros [Hxy Hc] H. change ((x :: y :: l) ++ [a]) with (x :: (y :: l) ++ [a]).
+    change ((y :: l) ++ [a]) with (y :: l ++ [a]). split; [exact Hxy|].
+    apply IH; [exact Hc|]. intros _. apply H. discriminate.
+Qed.
+
+Lemma last_rev (l : list step) : last (rev l) dflt = hd dflt l.
+Proof. destruct l as [|a l]; [reflexivity|]. cbn [rev hd]. apply last_last. Qed.
+
+Lemma hd_rev (l : list step) : hd dflt (rev l) = last l dflt.
+Proof.
+  induction l as [|a l IH]; [reflexivity|]. cbn [rev].
+  destruct l as [|b l]; [reflexivity|].
+  change (last (a :: b :: l) dflt) with (last (b :: l) dflt). rewrite <- IH.
+  cbn [rev]. destruct (rev l); reflexivity.
+Qed.
+
+Lemma rchain_rev L acc : rchain L acc -> chain L (rev acc).
+Proof.
+  induction acc as [|a acc IH]; [intros; exact I|].
+  destruct acc as [|b r].
+  - intros _. exact I.
+  - intros [Hba Hr]. cbn [rev] in *. apply chain_snoc; [apply IH, Hr|].
+    intros _. change (rev r ++ [b]) with (rev (b :: r)). rewrite last_rev. exact Hba.
+Qed.
+
+Lemma racc_ok_orbit L se sd acc :
+  racc_ok L se sd acc -> nd L (sdart (hd dflt acc)) = Some (se, sd) ->
+  orbit_walk L (rev acc) /\ hd dflt (rev acc) = (se, dtail L (se, sd), sd).
+Proof.
+  intros HR Hc. split; [constructor|].
+  - intros H. apply (ro_ne _ _ _ _ HR). apply (f_equal (@rev _)) in H. rewrite rev_involutive in H. exact H.
+  - intros s Hs. apply (ro_ok _ _ _ _ HR). apply in_rev, Hs.
+  - apply rchain_rev, (ro_chain _ _ _ _ HR).
+  - rewrite last_rev, hd_rev, (ro_last _ _ _ _ HR). exact Hc.
+  - rewrite map_rev. apply NoDup_rev, (ro_nodup _ _ _ _ HR).
+  - rewrite hd_rev. apply (ro_last _ _ _ _ HR).
+Qed.
+
+(* C01: the boundary walk started on any directed edge of a lattice without self-loops closes
+   (never Stuck / OutOfFuel / BadIndex) and is a duplicate-free closed orbit of next_dart *)
+Theorem trace_closes L se sd :
+  good L -> valid_dart L (se, sd) ->
+  exists w, trace L (adj_table L) se sd = Closed w /\ orbit_walk L w /\
+            hd dflt w = (se, dtail L (se, sd), sd).
+Proof.
+  intros HG Hv. unfold trace.
+  assert (Hsv : (let '(j, k) := edge_at L se in if sd then j else k) = dtail L (se, sd)).
+  { unfold dtail. cbn [fst snd]. reflexivity. }
+  rewrite Hsv.
+  destruct (trace_loop_closes L se sd HG (S (2 * nE L)) [(se, dtail L (se, sd), sd)] se (dtail L (se, sd)) sd)
+    as (acc' & Ht & HR & Hc).
+  - constructor.
+    + discriminate.
+    + reflexivity.
+    + intros s [<-|[]]. split; [exact Hv|reflexivity].
+    + exact I.
+    + cbn. constructor; [intros []|constructor].
+  - reflexivity.
+  - cbn [length]. lia.
+  - exists (rev acc'). split; [exact Ht|]. apply racc_ok_orbit; assumption.
+Qed.
+
+(* ------------------------------------------------------------------ reachability inside an orbit *)
+Inductive reach (L : lattice) : dart -> dart -> Prop :=
+| reach_refl x : reach L x x
+| reach_step x y z : nd L x = Some y -> reach L y z -> reach L x z.
+
+Lemma reach_trans L a b c : reach L a b -> reach L b c -> reach L a c.
+Proof. intros H1 H2. induction H1; [exact H2|]. eapply reach_step; eauto. Qed.
+
+Lemma chain_app_r L l1 l2 : chain L (l1 ++ l2) -> chain L l2.
+Proof.
+  induction l1 as [|a l1 IH]; [auto|].
+  destruct l1 as [|b l1].
+  - cbn [app]. destruct l2; [intros; exact I|]. intros [_ H]. exact H.
+  - intros [_ H]. apply IH. exact H.
+Qed.
+
+Lemma chain_reach_last L s l : chain L (s :: l) -> reach L (sdart s) (sdart (last (s :: l) dflt)).
+Proof.
+  revert s; induction l as [|b l IH]; intros s H; [apply reach_refl|].
+  destruct H as [Hsb Hc]. eapply reach_step; [exact Hsb|].
+  change (last (s :: b :: l) dflt) with (last (b :: l) dflt). apply IH, Hc.
+Qed.
+
+Lemma last_app_cons (l1 l2 : list step) s : last (l1 ++ s :: l2) dflt = last (s :: l2) dflt.
+Proof.
+  induction l1 as [|a l1 IH]; [reflexivity|].
+  change ((a :: l1) ++ s :: l2) with (a :: (l1 ++ s :: l2)).
+  destruct (l1 ++ s :: l2) eqn:E; [destruct l1; discriminate|]. rewrite <- IH. reflexivity.
+Qed.
+
+Lemma orbit_reach_hd L w s : orbit_walk L w -> In s w -> reach L (sdart s) (sdart (hd dflt w)).
+Proof.
+  intros HO Hs. apply in_split in Hs as (l1 & l2 & ->).
+  pose proof (chain_app_r L l1 (s :: l2) (ow_chain _ _ HO)) as Hc.
+  pose proof (chain_reach_last L s l2 Hc) as Hr.
+  rewrite <- (last_app_cons l1 l2 s) in Hr.
+  eapply reach_trans; [exact Hr|].
+  eapply reach_step; [apply (ow_close _ _ HO)|apply reach_refl].
+Qed.
+
+Lemma orbit_closed L w x y :
+  orbit_walk L w -> In x (map sdart w) -> nd L x = Some y -> In y (map sdart w).
+Proof.
+  intros HO Hx Hn. apply in_map_iff in Hx as (s & <- & Hs).
+  apply in_split in Hs as (l1 & l2 & E).
+  destruct l2 as [|b l2].
+  - pose proof (ow_close _ _ HO) as Hc.
+    assert (Hl : last w dflt = s) by (rewrite E, last_app_cons; reflexivity).
+    rewrite Hl, Hn in Hc. injection Hc as ->. apply in_map.
+    destruct w as [|a w]; [destruct l1; discriminate|left; reflexivity].
+  - pose proof (ow_chain _ _ HO) as Hc. rewrite E in Hc. apply chain_app_r in Hc.
+    destruct Hc as [Hsb _]. rewrite Hn in Hsb. injection Hsb as ->.
+    apply in_map. rewrite E. apply in_or_app. right. right. left. reflexivity.
+Qed.
+
+Lemma closed_reach L (S : dart -> Prop) x y :
+  (forall a b, S a -> nd L a = Some b -> S b) -> reach L x y -> S x -> S y.
+Proof. intros Hcl Hr. induction Hr; auto. intros. apply IHHr. eapply Hcl; eauto. Qed.
+
+(* ------------------------------------------------------------------ the sweep over all darts *)
+Lemma dart_eqb_eq a b : dart_eqb a b = true <-> a = b.
+Proof.
+  unfold dart_eqb. destruct a as [e d], b as [e' d']. cbn [fst snd].
+  rewrite andb_true_iff, Nat.eqb_eq, eqb_true_iff. split; [intros []; congruence|intros [=]; auto].
+Qed.
+
+Lemma visited_In vis d : visited vis d = true <-> In d vis.
+Proof.
+  unfold visited. rewrite existsb_exists. split.
+  - intros (x & Hx & He). apply dart_eqb_eq in He. congruence.
+  - intros H. exists d. split; [exact H|apply dart_eqb_eq; reflexivity].
+Qed.
+
+Lemma NoDup_app_intro {A} (l1 l2 : list A) :
+  NoDup l1 -> NoDup l2 -> (forall x, In x l1 -> In x l2 -> False) -> NoDup (l1 ++ l2).
+Proof.
+  induction l1 as [|a l1 IH]; intros H1 H2 H; [exact H2|].
+  apply NoDup_cons_iff in H1 as [Ha H1]. cbn. constructor.
+  - intros Hin. apply in_app_or in Hin as [Hin|Hin]; [auto|]. apply (H a); [left; reflexivity|exact Hin].
+  - apply IH; auto. intros x Hx. apply H. right. exact Hx.
+Qed.
+
+Definition face_darts (fs : list face) : list dart := flat_map walk_darts (map f_walk fs).
+
+Record sweep_inv (L : lattice) (done : list dart) (vis : list dart) (acc : list face) : Prop := {
+  si_vis : vis = face_darts acc;
+  si_orb : forall f, In f acc -> orbit_walk L (f_walk f);
+  si_mk : forall f, In f acc -> f = mk_face L (f_walk f);
+  si_nodup : NoDup vis;
+  si_done : forall d, In d done -> In d vis
+}.
+
+Lemma face_darts_closed L acc x y :
+  (forall f, In f acc -> orbit_walk L (f_walk f)) ->
+  In x (face_darts acc) -> nd L x = Some y -> In y (face_darts acc).
+Proof.
+  intros HO Hx Hn. unfold face_darts in *. apply in_flat_map in Hx as (w & Hw & Hx).
+  apply in_flat_map. exists w. split; [exact Hw|].
+  apply in_map_iff in Hw as (f & <- & Hf).
+  rewrite walk_darts_sdart in *. eapply orbit_closed; eauto.
+Qed.
+
+Lemma faces_one_step L d done vis acc :
+  good L -> valid_dart L d -> sweep_inv L done vis acc ->
+  exists vis' acc', faces_one L (adj_table L) d (Some (vis, acc)) = Some (vis', acc') /\
+                    sweep_inv L (d :: done) vis' acc'.
+Proof.
+  intros HG Hv HI. cbn [faces_one].
+  destruct (visited vis d) eqn:Hvis.
+  - exists vis, acc. split; [reflexivity|]. destruct HI as [H1 H2 H2' H3 H4]. constructor; auto.
+    intros d' [<-|Hd]; [apply visited_In, Hvis|apply H4, Hd].
+  - destruct d as [se sd].
+    destruct (trace_closes L se sd HG Hv) as (w & Ht & HO & Hhd).
+    cbn [fst snd]. rewrite Ht.
+    exists (walk_darts w ++ vis), (mk_face L w :: acc). split; [reflexivity|].
+    destruct HI as [H1 H2 H2' H3 H4].
+    assert (Hdw : In (se, sd) (walk_darts w)).
+    { rewrite walk_darts_sdart. destruct w as [|a w]; [exfalso; apply (ow_ne _ _ HO); reflexivity|].
+      cbn [hd] in Hhd. subst a. left. reflexivity. }
+    constructor.
+    + unfold face_darts. cbn [map flat_map f_walk mk_face]. rewrite H1. reflexivity.
+    + intros f [<-|Hf]; [exact HO|apply H2, Hf].
+    + intros f [<-|Hf]; [reflexivity|apply H2', Hf].
+    + apply NoDup_app_intro; [rewrite walk_darts_sdart; apply (ow_nodup _ _ HO)|exact H3|].
+      intros x Hxw Hxv.
+      assert (Hsv : In (se, sd) vis).
+      { rewrite walk_darts_sdart in Hxw. apply in_map_iff in Hxw as (s & <- & Hs).
+        pose proof (orbit_reach_hd L w s HO Hs) as Hr. rewrite Hhd in Hr.
+        change (sdart (se, dtail L (se, sd), sd)) with (se, sd) in Hr.
+        refine (closed_reach L (fun a => In a vis) _ _ _ Hr Hxv).
+        intros a b Ha Hab. rewrite H1 in *. eapply face_darts_closed; eauto. }
+      apply visited_In in Hsv. congruence.
+    + intros d' [<-|Hd]; apply in_or_app; [left; exact Hdw|right; apply H4, Hd].
+Qed.
+
+Lemma faces_fold L ds : good L -> (forall d, In d ds -> valid_dart L d) ->
+  forall done vis acc, sweep_inv L done vis acc ->
+  exists vis' acc',
+    fold_left (fun st d => faces_one L (adj_table L) d st) ds (Some (vis, acc)) = Some (vis', acc') /\
+    sweep_inv L (rev ds ++ done) vis' acc'.
+Proof.
+  intros HG. induction ds as [|d ds IH]; intros Hv done vis acc HI.
+  - exists vis, acc. split; [reflexivity|exact HI].
+  - destruct (faces_one_step L d done vis acc HG (Hv d (or_introl eq_refl)) HI) as (vis1 & acc1 & E1 & HI1).
+    destruct (IH (fun x Hx => Hv x (or_intror Hx)) _ _ _ HI1) as (vis2 & acc2 & E2 & HI2).
+    exists vis2, acc2. cbn [fold_left]. rewrite E1. split; [exact E2|].
+    cbn [rev]. rewrite <- app_assoc. exact HI2.
+Qed.
+
+Lemma face_darts_rev fs : Permutation (face_darts (rev fs)) (face_darts fs).
+Proof.
+  unfold face_darts. apply Permutation_flat_map. rewrite map_rev. symmetry. apply Permutation_rev.
+Qed.
+
+(* C01: the sweep lists every orbit of next_dart exactly once: every directed edge lies on
+   exactly one listed face walk, each walk is a duplicate-free closed orbit *)
+Theorem all_faces_spec L :
+  good L ->
+  exists fs, all_faces L = Some fs /\
+             (forall f, In f fs -> orbit_walk L (f_walk f) /\ f = mk_face L (f_walk f)) /\
+             NoDup (face_darts fs) /\
+             (forall d, valid_dart L d <-> In d (face_darts fs)).
+Proof.
+  intros HG. unfold all_faces.
+  destruct (faces_fold L (all_darts L) HG (fun d Hd => proj1 (in_all_darts L d) Hd) [] [] [])
+    as (vis & acc & E & HI).
+  { constructor; [reflexivity|intros f []|intros f []|constructor|intros d []]. }
+  rewrite E. exists (rev acc). split; [reflexivity|].
+  destruct HI as [H1 H2 H2' H3 H4]. split; [|split].
+  - intros f Hf. apply in_rev in Hf. split; [apply H2, Hf|apply H2', Hf].
+  - eapply Permutation_NoDup; [symmetry; apply face_darts_rev|]. rewrite <- H1. exact H3.
+  - intros d. split.
+    + intros Hd. eapply Permutation_in; [symmetry; apply face_darts_rev|]. rewrite <- H1.
+      apply H4. apply in_or_app. left. apply -> in_rev. apply in_all_darts, Hd.
+    + intros Hd. apply (Permutation_in _ (face_darts_rev acc)) in Hd.
+      unfold face_darts in Hd. apply in_flat_map in Hd as (w & Hw & Hd).
+      apply in_map_iff in Hw as (f & <- & Hf). rewrite walk_darts_sdart in Hd.
+      apply in_map_iff in Hd as (s & <- & Hs). apply (ow_ok _ _ (H2 f Hf) s Hs).
+Qed.
+
+(* ------------------------------------------------------------------ plaquettes = valid faces *)
+Definition plaq_of_faces (L : lattice) (fs : list face) : list plaquette :=
+  map (mk_plaquette L) (filter (walk_valid L) (map f_walk fs)).
+
+Definition srel (L : lattice) (stf : option (list dart * list face))
+           (stp : option (list dart * list plaquette)) : Prop :=
+  match stf with
+  | Some (v1, fa) => match stp with
+                     | Some (v2, pa) => v1 = v2 /\ pa = plaq_of_faces L fa
+                     | None => False
+                     end
+  | None => match stp with Some _ => False | None => True end
+  end.
+
+Lemma sweep_related L ds :
+  forall stf stp, srel L stf stp ->
+    srel L (fold_left (fun st d => faces_one L (adj_table L) d st) ds stf)
+           (fold_left (fun st d => sweep_one L (adj_table L) d st) ds stp).
+Proof.
+  induction ds as [|d ds IH]; intros stf stp H; [exact H|].
+  cbn [fold_left]. apply IH.
+  destruct stf as [[v1 fa]|]; destruct stp as [[v2 pa]|]; cbn [srel] in H; try contradiction; [|exact I].
+  destruct H as [<- ->]. cbn [faces_one sweep_one].
+  destruct (visited v1 d); [split; reflexivity|].
+  destruct (trace L (adj_table L) (fst d) (snd d)) as [w| | |]; try exact I.
+  unfold srel, plaq_of_faces. cbn [map f_walk mk_face filter].
+  destruct (walk_valid L w); split; reflexivity.
+Qed.
+
+Lemma filter_rev {A} (p : A -> bool) l : filter p (rev l) = rev (filter p l).
+Proof.
+  induction l as [|a l IH]; [reflexivity|]. cbn [rev filter].
+  rewrite filter_app, IH. cbn [filter]. destruct (p a); [reflexivity|apply app_nil_r].
+Qed.
+
+(* C01: the plaquette list is exactly the list of face walks that pass the three coded filters *)
+Theorem plaquettes_are_valid_faces L :
+  find_all_plaquettes L = option_map (plaq_of_faces L) (all_faces L).
+Proof.
+  unfold find_all_plaquettes, all_faces.
+  pose proof (sweep_related L (all_darts L) (Some ([], [])) (Some ([], [])) (conj eq_refl eq_refl)) as H.
+  destruct (fold_left (fun st d => faces_one L (adj_table L) d st) (all_darts L) (Some ([], []))) as [[v1 fa]|];
+    destruct (fold_left (fun st d => sweep_one L (adj_table L) d st) (all_darts L) (Some ([], []))) as [[v2 pa]|];
+    cbn [srel] in H; try contradiction; [|reflexivity].
+  destruct H as [_ ->]. cbn [option_map]. f_equal.
+  unfold plaq_of_faces. rewrite map_rev, filter_rev, map_rev. reflexivity.
+Qed.
+
+(* ------------------------------------------------------------------ every face walk is a consistent closed walk *)
+(* "taking its i-th edge in its i-th direction leads from its i-th vertex to its (i+1)-th",
+   the successor of the last vertex being [vend] *)
+Fixpoint walk_ok (L : lattice) (w : list step) (vend : nat) : Prop :=
+  match w with
+  | [] => True
+  | s :: r => snd (fst s) = dtail L (sdart s) /\
+              dhead L (sdart s) = match r with [] => vend | s' :: _ => snd (fst s') end /\
+              walk_ok L r vend
+  end.
+
+Lemma chain_walk_ok L w vend :
+  good L -> (forall s, In s w -> step_ok L s) -> chain L w ->
+  (w <> [] -> dhead L (sdart (last w dflt)) = vend) -> walk_ok L w vend.
+Proof.
+  intros HG. induction w as [|a w IH]; intros Hok Hc Hend; [exact I|].
+  cbn [walk_ok]. split; [apply (Hok a), or_introl, eq_refl|].
+  destruct w as [|b w].
+  - split; [apply Hend; discriminate|exact I].
+  - destruct Hc as [Hab Hc]. split.
+    + destruct (nd_valid L _ _ HG (proj1 (Hok a (or_introl eq_refl))) Hab) as [_ Ht].
+      rewrite <- Ht. symmetry. apply (Hok b). right. left. reflexivity.
+    + apply IH; [intros s Hs; apply Hok; right; exact Hs|exact Hc|].
+      intros _. apply Hend. discriminate.
+Qed.
+
+Theorem orbit_walk_consistent L w :
+  good L -> orbit_walk L w -> walk_ok L w (snd (fst (hd dflt w))).
+Proof.
+  intros HG HO. apply chain_walk_ok; [exact HG|apply (ow_ok _ _ HO)|apply (ow_chain _ _ HO)|].
+  intros Hne.
+  assert (Hl : In (last w dflt) w).
+  { destruct w as [|a w]; [contradiction|]. rewrite (app_removelast_last dflt Hne) at 2.
+    apply in_or_app. right. left. reflexivity. }
+  destruct (nd_valid L _ _ HG (proj1 (ow_ok _ _ HO _ Hl)) (ow_close _ _ HO)) as [_ Ht].
+  rewrite <- Ht. symmetry. apply (ow_ok _ _ HO).
+  destruct w as [|a w]; [contradiction|left; reflexivity].
+Qed.
+
+(* ------------------------------------------------------------------ directed edge vectors *)
+Lemma vadd_assoc a b c : vadd (vadd a b) c = vadd a (vadd b c).
+Proof. unfold vadd. cbn. f_equal; ring. Qed.
+
+Lemma dvec_decomp L s :
+  dvec L s = vadd (vsub (pos_at L (dhead L (sdart s))) (pos_at L (dtail L (sdart s))))
+                  (vscale (scale L) (dcross L s)).
+Proof.
+  unfold dvec, dcross, evec, dhead, dtail, sdart. cbn [fst snd].
+  destruct (edge_at L (fst (fst s))) as [j k]. destruct (snd s); cbn [sgn].
+  - unfold vadd, vsub, vscale. cbn [fst snd]. f_equal; ring.
+  - unfold vadd, vsub, vscale. cbn [fst snd]. f_equal; ring.
+Qed.
+
+Lemma vsum_cons a l : vsum (a :: l) = vadd a (vsum l).
+Proof. reflexivity. Qed.
+
+(* telescoping along a consistent walk *)
+Lemma walk_ok_telescope L w vend :
+  walk_ok L w vend -> w <> [] ->
+  vsum (map (dvec L) w) =
+  vadd (vsub (pos_at L vend) (pos_at L (snd (fst (hd dflt w)))))
+       (vscale (scale L) (vsum (map (dcross L) w))).
+Proof.
+  induction w as [|a w IH]; [intros _ H; contradiction|]. intros (Ht & Hh & Hr) _.
+  cbn [map hd]. rewrite !vsum_cons, dvec_decomp, <- Ht, Hh.
+  destruct w as [|b w].
+  - change (vsum (map (dvec L) [])) with vzero. change (vsum (map (dcross L) [])) with vzero.
+    unfold vadd, vsub, vscale, vzero. cbn [fst snd]. f_equal; ring.
+  - rewrite (IH Hr) by discriminate. cbn [hd].
+    unfold vadd, vsub, vscale. cbn [fst snd]. f_equal; ring.
+Qed.
+
+(* C01: "the directed edge vectors sum to zero" — in general they sum to (scale times) the net
+   boundary crossing of the walk, which the validity filter requires to vanish *)
+Theorem orbit_vectors_sum L w :
+  good L -> orbit_walk L w ->
+  vsum (map (dvec L) w) = vscale (scale L) (net_crossing L w).
+Proof.
+  intros HG HO. rewrite (walk_ok_telescope L w _ (orbit_walk_consistent L w HG HO) (ow_ne _ _ HO)).
+  unfold net_crossing, vadd, vsub, vscale. cbn [fst snd]. f_equal; ring.
+Qed.
+
+Lemma veqb_eq a b : veqb a b = true <-> a = b.
+Proof.
+  unfold veqb. destruct a, b. cbn [fst snd]. rewrite andb_true_iff, !Z.eqb_eq.
+  split; [intros []; congruence|intros [=]; auto].
+Qed.
+
+Corollary valid_walk_vectors_sum_zero L w :
+  good L -> orbit_walk L w -> walk_valid L w = true -> vsum (map (dvec L) w) = vzero.
+Proof.
+  intros HG HO Hv. rewrite (orbit_vectors_sum L w HG HO).
+  unfold walk_valid in Hv. apply andb_prop in Hv as [Hv _]. apply andb_prop in Hv as [_ Hn].
+  apply veqb_eq in Hn. rewrite Hn. unfold vscale, vzero. cbn. f_equal; ring.
+Qed.
+
+Lemma nodupb_NoDup l : nodupb l = true <-> NoDup l.
+Proof.
+  induction l as [|x l IH]; cbn [nodupb]; [split; [constructor|reflexivity]|].
+  rewrite andb_true_iff, negb_true_iff, IH, NoDup_cons_iff. split; intros [H1 H2]; split; auto.
+  - intros Hin. assert (existsb (Nat.eqb x) l = true); [|congruence].
+    apply existsb_exists. exists x. split; [exact Hin|apply Nat.eqb_refl].
+  - destruct (existsb (Nat.eqb x) l) eqn:E; [|reflexivity]. exfalso. apply H1.
+    apply existsb_exists in E as (y & Hy & He). apply Nat.eqb_eq in He. congruence.
+Qed.
+
+(* ------------------------------------------------------------------ plaquettes: no directed edge twice *)
+Definition plaq_darts (p : plaquette) : list dart := combine (p_edges p) (p_dirs p).
+
+Lemma combine_walk w : combine (walk_edges w) (walk_dirs w) = walk_darts w.
+Proof.
+  unfold walk_edges, walk_dirs, walk_darts. induction w as [|s w IH]; [reflexivity|].
+  cbn [map combine]. rewrite IH. reflexivity.
+Qed.
+
+Lemma plaq_darts_mk L w : plaq_darts (mk_plaquette L w) = walk_darts w.
+Proof. unfold plaq_darts, mk_plaquette. cbn [p_edges p_dirs]. apply combine_walk. Qed.
+
+Lemma NoDup_app_elim {A} (l1 l2 : list A) :
+  NoDup (l1 ++ l2) -> NoDup l1 /\ NoDup l2 /\ (forall x, In x l1 -> In x l2 -> False).
+Proof.
+  induction l1 as [|a l1 IH]; cbn [app]; intros H.
+  - split; [constructor|]. split; [exact H|]. intros x [].
+  - apply NoDup_cons_iff in H as [Ha H]. destruct (IH H) as (H1 & H2 & H3).
+    split; [constructor; [intros Hin; apply Ha, in_or_app; left; exact Hin|exact H1]|].
+    split; [exact H2|]. intros x [<-|Hx] Hy; [apply Ha, in_or_app; right; exact Hy|eauto].
+Qed.
+
+Lemma NoDup_flat_map_filter {A B} (f : A -> list B) (p : A -> bool) l :
+  NoDup (flat_map f l) -> NoDup (flat_map f (filter p l)).
+Proof.
+  induction l as [|a l IH]; [auto|]. cbn [flat_map filter]. intros H.
+  destruct (NoDup_app_elim _ _ H) as (H1 & H2 & H3).
+  destruct (p a); [|apply IH, H2]. cbn [flat_map].
+  apply NoDup_app_intro; [exact H1|apply IH, H2|].
+  intros x Hx Hy. apply (H3 x Hx).
+  apply in_flat_map in Hy as (b & Hb & Hxb). apply in_flat_map. exists b.
+  split; [apply filter_In in Hb; apply Hb|exact Hxb].
+Qed.
+
+Lemma flat_map_map {A B C} (g : A -> B) (f : B -> list C) l :
+  flat_map f (map g l) = flat_map (fun x => f (g x)) l.
+Proof. induction l as [|a l IH]; [reflexivity|]. cbn. rewrite IH. reflexivity. Qed.
+
+(* the full statement about the plaquette list of a lattice without self-loops *)
+Theorem plaquettes_spec L :
+  good L ->
+  exists fs, all_faces L = Some fs /\
+    find_all_plaquettes L = Some (plaq_of_faces L fs) /\
+    NoDup (flat_map plaq_darts (plaq_of_faces L fs)) /\
+    (forall p, In p (plaq_of_faces L fs) <->
+       exists f, In f fs /\ walk_valid L (f_walk f) = true /\ p = mk_plaquette L (f_walk f)).
+Proof.
+  intros HG. destruct (all_faces_spec L HG) as (fs & E & Hf & Hnd & Hall).
+  exists fs. split; [exact E|]. split; [rewrite plaquettes_are_valid_faces, E; reflexivity|]. split.
+  - unfold plaq_of_faces. rewrite flat_map_map.
+    erewrite flat_map_ext; [|intros w; apply plaq_darts_mk].
+    apply NoDup_flat_map_filter. exact Hnd.
+  - intros p. unfold plaq_of_faces. rewrite in_map_iff. split.
+    + intros (w & <- & Hw). apply filter_In in Hw as [Hw Hv]. apply in_map_iff in Hw as (f & <- & Hfin).
+      exists f. auto.
+    + intros (f & Hfin & Hv & ->). exists (f_walk f). split; [reflexivity|].
+      apply filter_In. split; [apply in_map, Hfin|exact Hv].
+Qed.
+
+(* every reported plaquette is a consistent closed walk with the advertised fields *)
+Theorem plaquette_closed_walk L fs p :
+  good L -> all_faces L = Some fs -> In p (plaq_of_faces L fs) ->
+  exists w, p = mk_plaquette L w /\ orbit_walk L w /\
+    walk_ok L w (snd (fst (hd dflt w))) /\
+    p_verts p = walk_verts w /\ p_edges p = walk_edges w /\ p_dirs p = walk_dirs w /\
+    n_sides p = length w /\ length (p_verts p) = length w /\ length (p_dirs p) = length w /\
+    NoDup (p_edges p) /\ net_crossing L w = vzero /\ vsum (map (dvec L) w) = vzero /\
+    p_winding p = (-1)%Z.
+Proof.
+  intros HG E Hp. destruct (all_faces_spec L HG) as (fs' & E' & Hf & _ & _).
+  rewrite E in E'. injection E' as <-.
+  unfold plaq_of_faces in Hp. apply in_map_iff in Hp as (w & <- & Hw).
+  apply filter_In in Hw as [Hw Hv]. apply in_map_iff in Hw as (f & <- & Hfin).
+  destruct (Hf f Hfin) as [HO _]. exists (f_walk f). split; [reflexivity|]. split; [exact HO|].
+  split; [apply orbit_walk_consistent; assumption|].
+  unfold mk_plaquette, n_sides. cbn [p_verts p_edges p_dirs p_winding].
+  unfold walk_verts, walk_edges, walk_dirs. rewrite !map_length.
+  repeat split; try reflexivity.
+  - unfold walk_valid in Hv. apply andb_prop in Hv as [Hv _]. apply andb_prop in Hv as [Hv _].
+    apply nodupb_NoDup in Hv. exact Hv.
+  - unfold walk_valid in Hv. apply andb_prop in Hv as [Hv _]. apply andb_prop in Hv as [_ Hv].
+    apply veqb_eq, Hv.
+  - apply valid_walk_vectors_sum_zero; assumption.
+  - unfold walk_valid in Hv. apply andb_prop in Hv as [_ Hv]. apply Z.eqb_eq, Hv.
+Qed.
